@@ -11,7 +11,7 @@ m = json.load(open(meta))
 m["breaks_property"] = p
 m["demo"] = os.path.basename(demo)
 m["confirmed_by_me"] = {
-    "how": f"tools/seedcheck.sh in the scratch worktree /tmp/wt-{p}: git apply patch.diff; cargo test --workspace --offline (55 lib tests pass); demo run fails; git checkout -- src; demo run passes",
+    "how": f"tools/seedcheck.sh in the scratch worktree /tmp/wt-{p} (round 1) or /tmp/wt2-{p} (round 2): git apply patch.diff; cargo test --workspace --offline (55 lib tests pass); demo run fails; git checkout -- src; demo run passes",
     "compiles": True, "existing_tests_pass": True, "demo_fails_with_change": True, "demo_passes_without": True,
 }
 m["checks_run"] = f"git -C /repo apply patch.diff; ./check <id> quick; git -C /repo checkout -- ."
